@@ -103,6 +103,28 @@ func OracleC05(tr *Trace) Verdict {
 		if c.FromT >= tr.End {
 			continue
 		}
+		// an outside party that mutates the key between this acquisition's write and its promotion
+		// (e.g. deletes it, after which another attempt of the same instance creates it again) makes the
+		// stored token somebody's else business for a moment: the statement speaks about the election's own terms
+		var acq *OpRec
+		for _, op := range tr.Ops {
+			if op.Gid == c.Up.Gid && op.Obj == c.Obj && op.ReturnSeq >= 0 && op.ReturnSeq < c.FromSeq && (op.Kind == OpCreate || op.Kind == OpUpdate) {
+				acq = op
+			}
+		}
+		interfered := false
+		for _, op := range tr.Ops {
+			if op.Obj < 0 && op.Applied && acq != nil && op.ApplySeq > acq.ApplySeq && op.ApplySeq < c.FromSeq+1 {
+				interfered = true
+			}
+			if op.Obj < 0 && op.Applied && op.ApplySeq > c.FromSeq && (c.ToSeq < 0 || op.ApplySeq < c.ToSeq) && op.Key == p.Instances[c.Inst].Group {
+				interfered = true
+			}
+		}
+		if interfered {
+			v.Classes = append(v.Classes, "skipped:outside-write-during-term")
+			continue
+		}
 		if c.Up.Live != nil && c.Up.Live.Actor == tr.ID(c.Inst) {
 			if pl := ParsePayload(c.Up.Live.Value); pl != nil && len(pl.Tokens) == 1 && pl.Tokens[0] != c.Token {
 				v.Viols = append(v.Viols, Viol{At: c.FromT, Sig: "C05 token-differs-from-stored-token",
